@@ -73,20 +73,21 @@ type mainInst struct {
 }
 
 type mainWorld struct {
-	p        *Plan
-	W        *World
-	stubs    []*tileStub
-	sn       *SimNet
-	store    persistence.LogStatePersistence
-	dbPath   string
-	dir      string
-	inst     *mainInst
-	interval time.Duration
-	witPub   WitKey
-	signers  []note.Signer
-	witV     note.Verifier
-	events   []string
-	opCfg    omniwitness.OperatorConfig
+	initFails bool // the next start finds a store it cannot initialise
+	p         *Plan
+	W         *World
+	stubs     []*tileStub
+	sn        *SimNet
+	store     persistence.LogStatePersistence
+	dbPath    string
+	dir       string
+	inst      *mainInst
+	interval  time.Duration
+	witPub    WitKey
+	signers   []note.Signer
+	witV      note.Verifier
+	events    []string
+	opCfg     omniwitness.OperatorConfig
 
 	storeFault func(call, id string, occ int) error
 	storeMu    sync.Mutex
@@ -176,6 +177,11 @@ func (m *mainWorld) start() error {
 			return nil
 		}
 		return m.storeFault(call, id, occ)
+	}, init: func() error {
+		if m.initFails {
+			return errors.New("injected: database is locked (at start-up)")
+		}
+		return nil
 	}}
 	ctx, cancel := context.WithCancel(context.Background())
 	inst.cancel = cancel
@@ -243,9 +249,17 @@ type faultyP struct {
 	occ   map[string]int
 	fault func(call, id string, occ int) error
 	fired *int
+	init  func() error // makes Init fail (the database is locked by somebody else, or unreadable, when the process starts)
 }
 
-func (f faultyP) Init() error             { return f.in.Init() }
+func (f faultyP) Init() error {
+	if f.init != nil {
+		if err := f.init(); err != nil {
+			return err
+		}
+	}
+	return f.in.Init()
+}
 func (f faultyP) Logs() ([]string, error) { return f.in.Logs() }
 func (f faultyP) ReadOps(id string) (persistence.LogStateReadOps, error) {
 	r, err := f.in.ReadOps(id)
@@ -492,6 +506,66 @@ func c14Exec(t *testing.T, p *Plan) (r *c14Result) {
 				}
 				settle()
 				observe(fmt.Sprintf("op %d restart", oi), true)
+			case "badstart":
+				// the service is stopped, the log starts serving a fork, and the next start finds its database unusable (locked by
+				// another process, say). Giving up is fine; serving is fine too - as long as what is served stays on the history the
+				// witness had acknowledged. Then the operator fixes the database and starts again.
+				ld := w.Logs[l]
+				prev := witnessed[l]
+				if m.dbPath == "" || !prev.Has || prev.Size < 2 {
+					continue
+				}
+				if err, ok := m.stop(); !ok {
+					add("not_caught_up", "main_did_not_stop", fmt.Sprintf("op %d: Main did not return within 120 simulated seconds of its context ending (%v)", oi, err))
+					return
+				}
+				at := uint64(op.MV % prev.Size)
+				nb := st.tree.Fork(at, fmt.Sprintf("fork-op%d", oi))
+				ld.Branches = append(ld.Branches, nb)
+				st.mu.Lock()
+				st.tree, st.size = nb, prev.Size+op.D%3
+				st.mu.Unlock()
+				forked[l] = true
+				m.initFails = true
+				if err := m.start(); err != nil {
+					r.infra = err.Error()
+					return
+				}
+				r.stats.Fired["start_with_unusable_database"]++
+				settle()
+				gaveUp := false
+				select {
+				case err := <-m.inst.done:
+					gaveUp = true
+					m.logf("op %d: Main gave up on the unusable store: %v", oi, err)
+					m.inst.done <- err
+				default:
+				}
+				if !gaveUp {
+					for i, ld2 := range w.Logs {
+						code, body, err := m.get("/witness/v0/logs/" + ld2.ID + "/checkpoint")
+						if err != nil || code != 200 {
+							continue // not serving this log while its store is unusable is fail-safe
+						}
+						served := parseStored(body)
+						if pv := witnessed[i]; pv.Has && !served.Bad {
+							if ok, whyNot := w.Compatible(i, pv.Size, pv.Root, served.Size, served.Root); !ok {
+								add("left_witnessed_history", "served_while_store_unusable/"+whyNot, fmt.Sprintf("op %d: started on an unusable database, the service nevertheless serves for log %d a cosigned {%s}, which does not extend the {%s} it had acknowledged before", oi, i, cpBrief(served), cpBrief(pv)))
+							}
+						}
+					}
+					r.stats.Probes["served_despite_unusable_database"]++
+				} else {
+					r.stats.Probes["gave_up_on_unusable_database"]++
+				}
+				m.stop()
+				m.initFails = false
+				if err := m.start(); err != nil {
+					r.infra = err.Error()
+					return
+				}
+				settle()
+				observe(fmt.Sprintf("op %d after the database was repaired", oi), false)
 			case "fork":
 				// the log starts serving a history that does not extend what was witnessed
 				ld := w.Logs[l]
@@ -635,7 +709,9 @@ func init() {
 					p.Ops = append(p.Ops, Op{K: "restart", Ms: int64(Pick(r, 0, 1000, 90000))})
 				}
 			}
-			if r.Chance(0.7) {
+			if p.Cfg.Store == "sqlite" && r.Chance(0.2) {
+				p.Ops = append(p.Ops, Op{K: "badstart", L: r.IntN(nl), MV: r.Uint64(), D: uint64(r.IntN(300))})
+			} else if r.Chance(0.7) {
 				fo := Op{K: "fork", L: r.IntN(nl), M: Pick(r, "larger", "larger", "same", "smaller"), MV: r.Uint64(), D: uint64(r.IntN(300))}
 				if r.Chance(0.5) {
 					fo.PV = 1 + r.Uint64()%1000000
